@@ -1897,6 +1897,7 @@ fn main() {
          builder cases = a rotation of the 4-point 1-D multisets and 3x3-lattice subsets x {{f64 L2, f32 L2, f64 L1, f64 Lp(3)}} x init {{Precomputed, Random, k-means++}} x n_runs {{1,3}} x tolerance {{1e-4,1e-2}} x max_n_iterations {{1,2,300}}, k = 2: from KMeans::params_with every one of the 24 orders of the setters n_runs / tolerance / max_n_iterations / init_method, each order additionally with a decoy write of one field (at the very beginning and directly before its real write) and with decoy writes of all four fields first; from KMeans::params_with_rng and KMeans::params (L2) every 7th of those sequences; fresh builders must show the documented defaults, the getters of check_ref() must equal the final logical parameter set, the parameter struct must equal the canonically built one and the fit must be bit-identical to the canonical order (KMeans::params only with a Precomputed start: its generator is not ours). \
          every batch predict is additionally repeated through the other calling forms (owned array, owned dataset, &dataset, owned dataset of an owned copy, &view of a dataset): labels must equal predict(&array) exactly and the records must be handed back unchanged; every query row additionally as a ONE-ROW batch through each form. \
          every batch predict is additionally repeated through predict_inplace into a buffer poisoned with usize::MAX, a buffer pre-filled with wrong labels and a buffer reused from a differently ordered batch, every single-row predict through predict_inplace into a poisoned and into a wrong slot: must equal the plain form exactly. \
+         k-means|| box cases = n = d mutually distant points c*1 + e_i in d = 8, 16, 24, 40, the full 3x3 lattice and the line 0..19, each shifted by c in {{0.1, 5, -3}} so that the origin lies outside the bounding box in every coordinate, x f32/f64 x k in {{2,3,5}} x seeds x cap {{1,300}}, 2 restarts: invariants only (bounding box, finite, describes-returned, predict / transform). \
          evaluations = fits of the real code; non-trivial = fits with k >= 2 on data with >= 2 distinct rows; every fitted model additionally gets predict (batch, single row) / transform evaluations on its training rows and on the lattice + half-lattice + far query points (first and last fit of a case). \
          states / transitions = distinct reference states (centroid set, stopped flag) per level / reference steps.",
         lad = ladder, n1 = n1_max, n1a = n1_all_images, n2 = n2_max, k = k_max, b = budgets, s = seeds, caps = iter_caps, r = max_runs
@@ -2184,6 +2185,63 @@ fn main() {
     }
       }
     ctx.extra("cases_wide", json!(n_wide));
+
+    // ---------------- k-means|| with the origin OUTSIDE the bounding box: the initialiser works on a
+    // candidate buffer that is only partly filled; rows it never wrote are all-zero and must not take part.
+    // Data: n = d mutually distant points c*1 + e_i (every point is farther from the others than from the
+    // origin when c is small) and shifted lattices; only invariants are compared (bounding box, finite,
+    // describes-returned, predict / transform), no trajectories.
+    let mut n_para = 0u64;
+    {
+        let mut psets: Vec<(String, Vec<Vec<f64>>)> = Vec::new();
+        for &c in &[0.1f64, 5.0, -3.0] {
+            for &dd in &[8usize, 16, 24, 40] {
+                psets.push((format!("distant_points/d{}/shift{}", dd, c), (0..dd).map(|i| (0..dd).map(|j| c + if i == j { 1.0 } else { 0.0 }).collect()).collect()));
+            }
+            psets.push((format!("lattice3x3_full/shift{}", c), lat.iter().map(|p| p.iter().map(|&v| v as f64 + c).collect()).collect()));
+            psets.push((format!("line_0..19/shift{}", c), (0..20).map(|i| vec![i as f64 + c]).collect()));
+        }
+        let pseeds: u64 = ctx.pick(8, 32);
+        for (fam, data) in &psets {
+            let dd = data[0].len();
+            let n = data.len();
+            let mut queries: Vec<Vec<f64>> = vec![vec![0.0; dd], (0..dd).map(|j| if j % 2 == 0 { 100.0 } else { -75.0 }).collect()];
+            for a in 0..n.min(4) {
+                queries.push((0..dd).map(|j| (data[a][j] + data[(a + 1) % n][j]) / 2.0).collect());
+            }
+            for float in ["f64", "f32"] {
+                for k in [2usize, 3, 5] {
+                    for seed in 0..pseeds {
+                        for &cap in &[1u64, 300] {
+                            cases.push(Case {
+                                kind: "seeded".into(),
+                                family: fam.clone(),
+                                data: data.clone(),
+                                float: float.into(),
+                                metric: "L2".into(),
+                                k,
+                                tol: 1e-4,
+                                queries: queries.clone(),
+                                init: vec![],
+                                init_from_data: true,
+                                budgets: 0,
+                                init_kind: "kmeans||".into(),
+                                seed,
+                                max_runs: 2,
+                                max_iter: cap,
+                                ladder: 0,
+                                mult: vec![],
+                                interleave: false,
+                                layouts: false,
+                            });
+                            n_para += 1;
+                        }
+                    }
+                }
+            }
+        }
+    }
+    ctx.extra("cases_kmeans_para_origin_outside_box", json!(n_para));
 
     // ---------------- builder family: setter orders, decoy-then-real writes, constructors
     let mut n_builder = 0u64;
